@@ -195,7 +195,18 @@ def main():
     ck.add_tlc(rs, "SnvPosterior")
     if rs.violated:
         ck.violation("model", {"cfg": "SnvPosterior", "invariant": rs.violated, "text": rs.error_text[:800]}, key={"model": "SnvPosterior"})
-    inst = rs.printed
+    inst = list(rs.printed)
+    # high ploidy x multi-allelic: the homozygous genotypes' VCF ranks exceed a signed byte (P = 8, n = 4: rank 164 for 3/3/..;
+    # P = 16, n = 3: rank 152), F = 0
+    for cfg in ("Snv_high8.cfg", "Snv_high16.cfg"):
+        try:
+            rh = tlc.run(SPEC, "SnvPosterior", cfg, timeout=1800)
+        except tlc.TLCError as e:
+            ck.machinery_failure(str(e))
+        ck.add_tlc(rh, "SnvPosterior/" + cfg)
+        if rh.violated:
+            ck.violation("model", {"cfg": cfg, "invariant": rh.violated, "text": rh.error_text[:800]}, key={"model": "SnvPosterior"})
+        inst += [st for k, st in enumerate(rh.printed) if not quick or k % 2 == 0 or len(st["reads"]) < 2]
     for st in inst:
         J = []
         for row in st["table"]:
@@ -212,6 +223,10 @@ def main():
         pmax = max(st["exact_hom"])
         st["thresholds"] = [float(pmax) * (1 + 1e-6), float(pmax) * (1 - 1e-6)] if pmax > Fraction(11, 20) and float(pmax) * (1 + 1e-6) < 1 else []
     slim = [{k: st[k] for k in ("P", "n", "F", "reads", "thresholds")} for st in inst]
+    # instances of one (P, F) next to each other, so that a worker can embed them into multi-SNV loci
+    order = sorted(range(len(slim)), key=lambda i: (slim[i]["P"], slim[i]["F"], i % 7, i))
+    inst = [inst[i] for i in order]
+    slim = [slim[i] for i in order]
     chunks = [list(range(i, min(i + 300, len(slim)))) for i in range(0, len(slim), 300)]
     res = pool.map_tasks("impl.c15", [{"op": "snvpost", "states": [slim[i] for i in c]} for c in chunks], mode="jit")
     ndec = 0
@@ -225,6 +240,15 @@ def main():
             if any(not close_prob(x, q) for x, q in zip(o["hom"], st["exact_hom"])):
                 ck.violation("snv-posterior", {"P": st["P"], "n": st["n"], "F": st["F"], "reads": st["reads"], "impl": o["hom"],
                                                "model": [str(q) for q in st["exact_hom"]]}, key={"site": "_homozygosity_probabilities"})
+            for emb in o.get("embedded", []):
+                ck.evaluations += 1
+                ck.nontrivial += 1
+                bad = any(not close_prob(x, q) for x, q in zip(emb["hom"][:st["n"]], st["exact_hom"])) or any(x != 0 for x in emb["hom"][st["n"]:])
+                if bad:
+                    ck.violation("snv-posterior", {"P": st["P"], "n": st["n"], "F": st["F"], "reads": st["reads"], "impl": emb["hom"],
+                                                   "model": [str(q) for q in st["exact_hom"]], "locus_allele_counts": emb["na"], "column": emb["col"]},
+                                 key={"site": "_homozygosity_probabilities", "feature": "embedded-in-multi-SNV-locus",
+                                      "mixed_allele_counts": len(set(emb["na"])) > 1})
             am = max(range(st["n"]), key=lambda a: st["exact_hom"][a])
             for d, want_sampled in zip(o["decisions"], (True, True, False, False)):
                 ndec += 1
